@@ -1596,8 +1596,18 @@ class H2Connection:
         # If necessary, check we can open the stream. Also validate that the
         # stream ID is valid. A promised stream only starts to count against
         # our limit now that it leaves the reserved state.
-        if (frame.stream_id not in self.streams or
-                self.streams[frame.stream_id].reserved):
+        stream = self.streams.get(frame.stream_id)
+        if stream is None:
+            # Frames for streams that are already gone (trailers racing a
+            # reset, say) open nothing.
+            opens_stream = (
+                not self._stream_id_is_outbound(frame.stream_id) and
+                frame.stream_id > self.highest_inbound_stream_id
+            )
+        else:
+            opens_stream = stream.reserved
+
+        if opens_stream:
             max_open_streams = self.local_settings.max_concurrent_streams
             if (self.open_inbound_streams + 1) > max_open_streams:
                 raise TooManyStreamsError(
